@@ -317,6 +317,7 @@ func genRequest(t *rapid.T, hosts []Host, kind string) Op {
 	if kind == "hs" {
 		op.TLS12 = rapid.IntRange(0, 2).Draw(t, "tls12") == 0
 		op.Std = rapid.Bool().Draw(t, "std")
+		op.TCP = rapid.IntRange(0, 2).Draw(t, "tcp") == 0
 	}
 	return op
 }
@@ -331,6 +332,8 @@ func genNoName(t *rapid.T) Op {
 	case "tls":
 		op.API = "tls"
 	}
+	// a listener's connection has addresses a pipe has not
+	op.TCP = op.Kind == "hs" && rapid.Bool().Draw(t, "noname_tcp")
 	return op
 }
 
@@ -492,7 +495,7 @@ var propMachine = &kit.Prop[Case]{
 
 var propExpiry = &kit.Prop[Case]{
 	ID: "C06", Name: "expiry", Journal: true,
-	Rule:       "histories over a mitm.Config with SetValidity(2s): 1..4 requests, a sleep past the NotAfter of everything issued, then the same request again (the cached entry is now invalid; in 2 of 3 cases served by a tls.Config that was built before the sleep) and 0..3 more requests, a concurrent burst, or 1..3 CONNECT tunnels through a real proxy that stay idle past the validity before the ClientHello; thorough: sometimes a second crossing; " + oracleText + "; non-trivial = a request for a host whose cached certificate has expired",
+	Rule:       "histories over a mitm.Config with SetValidity(2s): 1..4 requests, a sleep past the NotAfter of everything issued, optionally the same request a few ms BEFORE the end, then the same request again after it (the cached entry is now invalid; in 2 of 3 cases served by a tls.Config that was built before the sleep) and 0..3 more requests, a concurrent burst, or 1..3 CONNECT tunnels through a real proxy that stay idle past the validity before the ClientHello; thorough: sometimes a second crossing; " + oracleText + "; non-trivial = a request for a host whose cached certificate has expired",
 	Run:        budgeted("expiry", 6*time.Second, 20*time.Second),
 	NonTrivial: func(c Case) bool { return analyse(c).crossing },
 	Classes:    classes,
@@ -525,6 +528,13 @@ var propExpiry = &kit.Prop[Case]{
 					}
 				}
 				c.Ops = append(c.Ops, Op{Kind: "prep", API: again.API, Host: again.Host})
+			}
+			if rapid.IntRange(0, 2).Draw(t, "near_expiry") == 0 {
+				// first stop a few ms short of the end: the cached leaf is still
+				// (just) valid and may be served
+				near := again
+				near.Held = false
+				c.Ops = append(c.Ops, Op{Kind: "expire", Before: rapid.SampledFrom([]int{1, 3, 10, 40, 150, 400}).Draw(t, "before_ms")}, near)
 			}
 			c.Ops = append(c.Ops, Op{Kind: "expire"})
 			c.Ops = append(c.Ops, again)
@@ -576,7 +586,7 @@ var propConcurrent = &kit.Prop[Case]{
 
 var propMatrix = &kit.Prop[Case]{
 	ID: "C06", Name: "matrix",
-	Rule:       "fixed matrix: every listed spelling class (lower/mixed-case names, 63-byte label, 253-byte name, punycode, IPv4, IPv6 loopback/compressed/upper-case/expanded/IPv4-mapped, each bare and with port, three bracketed without port) x {direct, cache hit, handshake TLS1.3, handshake TLS1.2, SNI same / SNI different / SNI through Config.TLS()}, plus the no-name requests; three rows repeated under a P-256 authority, three with an h2.Config that allows every host; " + oracleText,
+	Rule:       "fixed matrix: every listed spelling class (lower/mixed-case names, 63-byte label, 253-byte name, punycode, IPv4, IPv6 loopback/compressed/upper-case/expanded/IPv4-mapped, each bare and with port, three bracketed without port) x {direct, cache hit, handshake TLS1.3, handshake TLS1.2, SNI same / SNI different / SNI through Config.TLS()}, plus the no-name requests (also over real TCP sockets, where a ClientHello has a connection with addresses behind it); three rows repeated under a P-256 authority, three with an h2.Config that allows every host; " + oracleText,
 	Run:        journaled("matrix", func(c Case) kit.Verdict { return run("matrix", c) }),
 	NonTrivial: nonTrivial, Classes: classes,
 }
@@ -613,6 +623,7 @@ func matrixCases() []Case {
 			{Kind: "get", Host: 0},
 			{Kind: "hs", Host: 0, Std: !isDNS},
 			{Kind: "hs", Host: 0, TLS12: true},
+			{Kind: "hs", Host: 0, TCP: true, Std: !isDNS},
 			{Kind: "get", Host: 0, Sni: "other.example.org"},
 			{Kind: "hs", Host: 0, Sni: "Other.Example.ORG", Std: true},
 			{Kind: "get", Host: 1},
@@ -632,6 +643,7 @@ func matrixCases() []Case {
 	for _, op := range []Op{
 		{Kind: "get", Host: -1}, {Kind: "hs", Host: -1}, {Kind: "get", Host: -2}, {Kind: "hs", Host: -2},
 		{Kind: "get", API: "tls"}, {Kind: "hs", API: "tls"}, {Kind: "hs", API: "tls", TLS12: true},
+		{Kind: "hs", API: "tls", TCP: true}, {Kind: "hs", API: "tls", TCP: true, TLS12: true}, {Kind: "hs", Host: -1, TCP: true}, {Kind: "hs", Host: -2, TCP: true},
 	} {
 		// a successful request before and after: the refusal must not depend on
 		// (or disturb) the cache
